@@ -4,10 +4,12 @@
    "The same" (14, 19, 20) = structural equality modulo Locs and grouping parentheses, between expressions that
    contain no function / table constructor (a constructor yields a fresh value each time it is evaluated).
    Float literals are the same when the oracle [fclose] says so (the value of a float literal is not part of the
-   model AST).  Parentheses around a call or `...` in the LAST argument position truncate a value list and are kept.
+   model AST).  The parentheses of `(f())` and `(...)` are no grouping parentheses: they adjust a value list to one
+   value (visibly so in the last argument of a call, the last field of a constructor, ...); they are kept, once
+   (`((f()))` = `(f())`).
 
    Every pattern comes as a Prop (readable) and as a boolean / list function (extracted, drives the `spec` column of
-   the correspondence leg); Proofs/PatternsSpecExec.v shows that they agree. *)
+   the correspondence leg); Proofs/PatternsFile.v shows that they agree. *)
 From Coq Require Import List NArith ZArith Bool Arith.
 From LH Require Import Base.Bytes Model.Lexer Model.Ast.
 Import ListNotations.
@@ -248,28 +250,15 @@ Section Spec.
     | _, _ => false
     end.
 
-  (* grouping parentheses removed *)
+  (* grouping parentheses removed; those that adjust a call / `...` to one value are kept (once) *)
   Definition is_multi (e : exp) : bool := match e with ECall _ _ _ _ | EVararg _ => true | _ => false end.
   Fixpoint strip (e : exp) : exp :=
     match e with
-    | EParens x _ => strip x
+    | EParens x l => let s := strip x in if is_multi s then EParens s l else s
     | EUnop o x l => EUnop o (strip x) l
     | EBinop o a b l => EBinop o (strip a) (strip b) l
     | EIndex p k l => EIndex (strip p) (strip k) l
-    | ECall p nm args l =>
-      ECall (strip p) nm
-            ((fix go (xs : list exp) : list exp :=
-                match xs with
-                | [] => []
-                | x :: r =>
-                  match r with
-                  | [] => [match x with
-                           | EParens y l' => if is_multi y then EParens (strip y) l' else strip y
-                           | _ => strip x
-                           end]
-                  | _ => strip x :: go r
-                  end
-                end) args) l
+    | ECall p nm args l => ECall (strip p) nm (map strip args) l
     | _ => e
     end.
 
